@@ -368,6 +368,33 @@ func RandomHistory(r *rand.Rand, o HistOpts) (ops []HOp, period int) {
 					}
 				}
 			}
+		case x == 7 && len(live) > 0 && r.IntN(2) == 0:
+			// a stream is written, removed and added again straight away, written again with nothing else in between, then another
+			// stream is written, then this one again (any piece may be missing)
+			l, _ := pick()
+			if l.auto {
+				continue
+			}
+			run := func(pid uint16, auto bool, sl int, k int) {
+				for q := 0; q < k; q++ {
+					ops = append(ops, randomDataOp(r, pid, auto, sl, o))
+				}
+			}
+			if !havePCR {
+				ops = append(ops, HOp{Kind: "pcr", PID: l.pid})
+				havePCR = true
+			}
+			run(l.pid, false, 0, r.IntN(3))
+			ops = append(ops, HOp{Kind: "remove", PID: l.pid})
+			if r.IntN(3) == 0 {
+				ops = append(ops, HOp{Kind: "tables"})
+			}
+			ops = append(ops, HOp{Kind: "add", PID: l.pid, ES: randomES(r, o.RichHeaders)})
+			run(l.pid, false, 0, r.IntN(4))
+			if o2, ok := pick(); ok && (o2.auto || o2.pid != l.pid) && r.IntN(4) > 0 {
+				run(o2.pid, o2.auto, o2.slot, 1+r.IntN(2))
+			}
+			run(l.pid, false, 0, 1+r.IntN(3))
 		case x == 6 && o.AllowPacket:
 			p := gen.RandomPacket(r)
 			p.Header.PID = o.WritePktPIDs[r.IntN(len(o.WritePktPIDs))]
